@@ -613,3 +613,15 @@ package processor
 //@     ghostset ghost(0, "rexAppended") = ite(result == nil, 1, 0)
 //@   ensures [a-batch-with-rows-always-gets-its-extraction-columns] implies(result1 == nil && ghost(0, "rexRows") > 0, ghost(0, "rexAppended") == 1)
 //@ end
+
+// C05 (`sort N` / `head N` over merged streams yields a prefix of the sorted
+// stream): the merger counts the records it has RETURNED against the limit, so
+// the counter advances by the size of the batch as it is handed on — after the
+// trim to the remaining limit, not before it (a counter beyond the limit makes
+// the remaining limit wrap to about 2^64 and everything passes through).
+//@ func (*DataProcessor).getStreamInput
+//@   props C05
+//@   assumecalleerequires
+//@   site store dp.mergeSettings.numReturned #1:
+//@     assert [the-returned-counter-advances-by-the-size-of-the-batch-handed-on] implies(iqr != nil, value == dp.mergeSettings.numReturned + uint64(ghost(iqr, "iqrN")))
+//@ end
